@@ -125,3 +125,15 @@ PROPS["C17"] = {
                  "floor_evaluations": 1500000},
     "regress": ["nul_in_key"],
 }
+
+PROPS["C02"] = {
+    "title": "serializeJson emits exactly the document, on every kind of destination",
+    "src": "c02.cpp",
+    "level": "exploration",
+    "technique": "property-based differential testing: all destinations must receive identical bytes; bytes compared with an independent canonical printer (float-free documents) or parsed back by an independent RFC 8259 parser; every buffer capacity 0..len+2 inside canary-guarded and exactly sized (ASan) blocks; reference pretty printer",
+    "rule": "case = a document obtained from a generated value through the mutation API (generated C++ types / string kinds, raw values, arbitrary string bytes, non-finite floats, nesting up to 30, empty containers), through deserializeJson of a generated spelling, or through deserializeMsgPack of a reference encoding; for each: std::string, std::ostream, custom writer, char[N], (void*,size) at every capacity 0..len+2 (len <= 96; else edges and 12 random), compact and pretty, plus Arduino String/Print in the arduino configuration; non-trivial = the document has >= 2 nodes or a string needing an escape or a 64-bit integer, and at least one truncating capacity was exercised; distinct = hash of the value rendering",
+    "level_text": "Exploration with an explicit oracle for each clause of the property: identical bytes and counts on all destinations, measure == length, exact text for float-free documents, reference parser acceptance and value equality otherwise, pretty == compact modulo whitespace and exact pretty layout, prefix/terminator/no-overwrite for every capacity.",
+    "level_note": "The reference parser accepts raw control and non-UTF-8 bytes inside strings (C17 fixes that the serializer passes them through). Documents whose raw values are not valid JSON fragments skip the parse-back and pretty-vs-compact sub-checks.",
+    "quick": {"configs": ["default", "arduino"], "cases": 500000, "floor_evaluations": 800000, "floor_nontrivial": 200000},
+    "thorough": {"configs": ["default", "arduino"], "cases": 3000000, "floor_evaluations": 2000000},
+}
